@@ -51,6 +51,28 @@ fn header_bytes(code: i32) -> [u8; 100] {
     h
 }
 
+/// The header image of the 2^32 sweep: the fields the type word does not depend on vary with
+/// the code (version word 1000 / 0 / the code itself / -1, length 50 or larger, a non-zero box),
+/// so that the verdict on the type word cannot hide behind one fixed image.
+fn sweep_header_bytes(code: i32) -> [u8; 100] {
+    let mut h = header_bytes(code);
+    let version: i32 = match code as u32 % 4 {
+        0 => 1000,
+        1 => 0,
+        2 => code,
+        _ => -1,
+    };
+    h[28..32].copy_from_slice(&version.to_le_bytes());
+    if code as u32 % 3 == 1 {
+        h[24..28].copy_from_slice(&(50 + (code as u32 % 1000) as i32).to_be_bytes());
+    }
+    if code as u32 % 5 == 2 {
+        h[36..44].copy_from_slice(&(code as f64).to_le_bytes());
+        h[92..100].copy_from_slice(&(-1.5f64).to_le_bytes());
+    }
+    h
+}
+
 fn check_from(c: i32, rep: &mut Report) {
     let got = ShapeType::from(black_box(c));
     match (got, valid(c)) {
@@ -70,7 +92,7 @@ fn check_from(c: i32, rep: &mut Report) {
 }
 
 fn check_header(c: i32, rep: &mut Report) {
-    let h = header_bytes(c);
+    let h = sweep_header_bytes(c);
     let mut src: &[u8] = &h[..];
     let got = Header::read_from(&mut src);
     let ok = match (&got, valid(c)) {
@@ -144,7 +166,17 @@ fn check_record_layout(c: i32, body: usize, rep: &mut Report) {
     let f = record_file_with(c, body);
     // the generic read and a typed read (concrete type rotating with the code) must both
     // refuse the record with the invalid-shape-type error carrying the value
-    let typed_as = crate::gen::TYPES[(c as u32 % 13) as usize];
+    // requested types: the rotating one, and every type whose code this value resembles (shifted
+    // by whole bytes, byte-swapped, negated, with one extra bit)
+    let mut requested: Vec<i32> = vec![crate::gen::TYPES[(c as u32 % 13) as usize]];
+    for &v in crate::gen::TYPES.iter() {
+        let like = [v << 8, v << 16, v << 24, v.swap_bytes(), -v, v.wrapping_add(256), v.wrapping_add(65536), v ^ i32::MIN];
+        if (like.contains(&c) || (c ^ v).count_ones() == 1) && !requested.contains(&v) {
+            requested.push(v);
+        }
+    }
+    for typed_as in requested {
+    let f = f.clone();
     let r = panicmon::catch(|| {
         let judge = |first: Option<Result<(), Error>>| match first {
             Some(Err(Error::InvalidShapeType(x))) if x == c => Ok(()),
@@ -157,8 +189,18 @@ fn check_record_layout(c: i32, body: usize, rep: &mut Report) {
         let mut rd = ShapeReader::new(Cursor::new(f.clone())).map_err(|e| ("typed", crate::shapes::err_class(&e)))?;
         let first = for_type!(typed_as, S => rd.iter_shapes_as::<S>().next().map(|r| r.map(|_| ())));
         judge(first).map_err(|e| ("typed", e))?;
-        let first = for_type!(typed_as, S => ShapeReader::new(Cursor::new(f)).and_then(|rd| rd.read_as::<S>()).map(|_| ()));
-        judge(Some(first)).map_err(|e| ("typed-read_as", e))
+        let first = for_type!(typed_as, S => ShapeReader::new(Cursor::new(f.clone())).and_then(|rd| rd.read_as::<S>()).map(|_| ()));
+        judge(Some(first)).map_err(|e| ("typed-read_as", e))?;
+        // random access through an index that lists the record
+        let mut shx = header_bytes(1).to_vec();
+        shx[24..28].copy_from_slice(&54i32.to_be_bytes());
+        shx.extend_from_slice(&50i32.to_be_bytes());
+        shx.extend_from_slice(&(((4 + body) / 2) as i32).to_be_bytes());
+        let mut rd = ShapeReader::with_shx(Cursor::new(f.clone()), Cursor::new(shx.clone())).map_err(|e| ("nth", crate::shapes::err_class(&e)))?;
+        judge(rd.read_nth_shape(0).map(|r| r.map(|_| ()))).map_err(|e| ("nth", e))?;
+        let mut rd = ShapeReader::with_shx(Cursor::new(f), Cursor::new(shx)).map_err(|e| ("nth-typed", crate::shapes::err_class(&e)))?;
+        let first = for_type!(typed_as, S => rd.read_nth_shape_as::<S>(0).map(|r| r.map(|_| ())));
+        judge(first).map_err(|e| ("nth-typed", e))
     });
     match r {
         Ok(Ok(())) => {}
@@ -168,6 +210,7 @@ fn check_record_layout(c: i32, body: usize, rep: &mut Report) {
             J::obj(vec![("code", J::Int(c as i64)), ("route", J::s(route)), ("bytes_after_the_type_word", J::UInt(body as u64)), ("typed_as", J::s(type_name(typed_as))), ("got", J::s(what))]),
         ),
         Err(p) => rep.violation("record-error:panic", &format!("record:{}", c), J::obj(vec![("code", J::Int(c as i64)), ("panic", J::s(p.class()))])),
+    }
     }
 }
 
@@ -200,6 +243,21 @@ pub fn run(ctx: &Ctx) -> Report {
                 }
                 if t as i32 != c {
                     bad.push("roundtrip");
+                }
+                // re-encoding through the writer: the header of a file of this type and the
+                // record's own type word both carry the code
+                if c != 0 && !cfg!(miri) {
+                    let mut r = crate::rng::Rng::new(c as u64);
+                    let one = crate::gen::shape(c, &mut r, &crate::gen::Cfg::plain(2, 3));
+                    match crate::shapes::write_all_mem(std::slice::from_ref(&one), true) {
+                        Ok((shp, shx)) => {
+                            let le = |b: &[u8], o: usize| i32::from_le_bytes([b[o], b[o + 1], b[o + 2], b[o + 3]]);
+                            if shp.len() < 112 || le(&shp, 32) != c || le(&shp, 108) != c || shx.len() < 100 || le(&shx, 32) != c {
+                                bad.push("written-code");
+                            }
+                        }
+                        Err(_) => bad.push("written-code"),
+                    }
                 }
                 for b in bad {
                     total.violation(b, &case, J::obj(vec![("code", J::Int(c as i64)), ("display", J::s(format!("{}", t)))]));
@@ -269,6 +327,9 @@ pub fn run(ctx: &Ctx) -> Report {
         }
     }
     codes.extend_from_slice(&[i32::MIN, i32::MIN + 1, i32::MAX, i32::MAX - 1]);
+    for v in ALL_CODES {
+        codes.extend_from_slice(&[v << 8, v << 16, v << 24, v.swap_bytes(), -v, v.wrapping_add(256), v.wrapping_add(65536), v ^ i32::MIN]);
+    }
     let n_fixed = codes.len();
     let seed = ctx.seed;
     let chunks = 256usize;
